@@ -200,16 +200,19 @@ def sig(kind, action, stage):
 
 
 def exit_after_scenario(planted=None):
-    FORMS = ['seconds', 'float', 'm:s', '@iso']
+    FORMS = ['seconds', 'float', 'm:s', '@iso', 'h:m:s', 'd:h:m:s', 'd:h:m:s.mixed']
+    # form -> (exit_after value, T in virtual seconds, virtual seconds per unit of processing time); the day forms need a non-zero days field to tell the field weights apart
+    LONG = {'h:m:s': ('0:00:05', 5, 1), 'd:h:m:s': ('1d:0:0:0', 86400, 21600), 'd:h:m:s.mixed': ('1:01:01:01', 90061, 30000)}
     def scenario(e):
         fresh_world(); VCLOCK.s = T0
         form = FORMS[e.choice('form', len(FORMS))]
-        T = 5
-        ea = {'seconds': T, 'float': float(T), 'm:s': '0:05', '@iso': '@2023-11-14T22:13:25+00:00'}[form]
+        T = 5; unit = 1
+        if form in LONG: ea, T, unit = LONG[form]
+        else: ea = {'seconds': T, 'float': float(T), 'm:s': '0:05', '@iso': '@2023-11-14T22:13:25+00:00'}[form]
         calls = []
         TF = make_filter_class(None, calls)
         cfg = {'id': 'F', 'log_path': False, 'outputs_metrics': False, 'outputs_filter': False, 'mq_log': False, 'sources': 'tcp://up:5550', 'exit_after': ea}
-        dts = [e.fresh_int(f'dt{i}', 0, 4) for i in range(6)]         # virtual seconds consumed by each process() call
+        dts = [e.fresh_int(f'dt{i}', 0, 4) * unit for i in range(6)]  # virtual seconds consumed by each process() call
         orig_init = TF.init
         def init_and_feed(self, config):
             orig_init(self, config); self._dt = list(dts)
@@ -264,7 +267,7 @@ def harnesses(tier):
                         'policies': '4 x 4 prop/obey', 'topology position': 'head / middle / sink', 'frames': 3},
                 functions=fn, stubs=stubs, assumptions=assume, budget_s=900),
         Harness('c08.exit_after', exit_after_scenario(), twin=exit_after_scenario(planted=True),
-                bounds={'forms': "5, 5.0, '0:05', '@<iso time>'", 'processing time per iteration': 'symbolic 0-4 s (virtual clock)', 'iterations': '<=6'},
+                bounds={'forms': "5, 5.0, '0:05', '@<iso time>', '0:00:05', '1d:0:0:0' (time unit 6 h), '1:01:01:01' (time unit 30000 s)", 'processing time per iteration': 'symbolic 0-4 time units (virtual clock)', 'iterations': '<=6'},
                 functions=fn, stubs=stubs, assumptions=assume, budget_s=600),
     ]
     from props import s_level as SL
